@@ -206,6 +206,57 @@ theorem served_columns_advertised_partial (evs : Evs) (hpos : PosTs evs) (h : Hi
   rcases meta_sound evs hpos h k f hf with ⟨p, hp, hv, _, hc, _⟩
   exact ⟨p, hp, hv, fun e he => (hc e he).2.2⟩
 
+/-- full strength for "queries return": no record search after a restart is left with a record it has read but can
+never hand out — i.e. every search terminates (`stuck`: Model/CrashMeta.lean, the record searcher's rounds) -/
+def SearchTerminates : Prop :=
+  ∀ (evs : Evs), PosTs evs → ∀ (h : Hist) (k : Nat) (q : Query), stuck evs (crashAfter h k) q = []
+
+/-- the flush in progress holds two batches: one older and one newer than everything the first flush held -/
+def cexEvsStraddle : Evs := fun f =>
+  if f = 0 then [⟨1, 50001, ["a"]⟩] else if f = 1 then [⟨2, 30004, ["a"]⟩, ⟨3, 60007, ["a"]⟩] else []
+
+/-- … which the code violates while a flush is in progress: the block summary of the second flush is on disk
+(step 11), the running .sfm still advertises [50001, 50001]; the block reaches the cut-off (its HighTs 60007 ≥ 50001)
+and is read, its record at 30004 lies below the last cut-off and is never handed out — the all-time search never
+returns (replayed on the real code: crash/query-never-returns) -/
+theorem search_terminates_counterexample : ¬ SearchTerminates := by
+  intro H
+  have hpos : PosTs cexEvsStraddle := by
+    intro f e he
+    unfold cexEvsStraddle at he
+    split at he
+    · simp at he; subst he; decide
+    · split at he
+      · simp at he; rcases he with rfl | rfl <;> decide
+      · cases he
+  have := H cexEvsStraddle hpos cexHist 11 ⟨1, 100000, none⟩
+  revert this
+  decide
+
+/-- … and keeps whenever no flush was in progress at the crash (guard: `inflight h k = none`; satisfiable: every
+command boundary, e.g. `inflight cexHist 15 = none`): every record a search finds lies at or above the advertised
+start of its segment, hence at or above the last cut-off — every search of every window terminates. -/
+theorem search_terminates_partial (evs : Evs) (hpos : PosTs evs) (h : Hist) (k : Nat) (q : Query)
+    (hg : inflight h k = none) : stuck evs (crashAfter h k) q = [] := by
+  apply SigModel.Lemmas.C07.stuckWith_nil_of
+  intro e he
+  unfold searchWith at he
+  rcases List.mem_flatMap.1 he with ⟨f, hf, hef⟩
+  have hev : e ∈ evs f := (List.mem_filter.1 hef).1
+  rcases SigModel.Lemmas.C07.mem_searchFlushesWith_elim hf with ⟨p', hp', hr', hv'⟩
+  have hcomp : f ∈ completed h k := by
+    rcases (time_search_exactly_once evs h k q).2 f hf with hc | hc
+    · exact hc
+    · rw [hg] at hc; cases hc
+  rcases meta_sound evs hpos h k f hcomp with ⟨p, hp, hv, _, hc, _⟩
+  have hnd : ((metas (crashAfter h k)).flatMap (fun p => segVisible ((crashAfter h k).seg p.1))).Nodup := by
+    rw [← SigModel.Lemmas.C07.visible_eq_metas]; exact (crash_prefix_safe h k).2
+  have hpp : p' = p := SigModel.Lemmas.C07.nodup_flatMap_unique hnd hp' hp hv' hv
+  subst hpp
+  exact ⟨p', hp', hr', (hc e hev).1⟩
+
+example : inflight cexHist 15 = none := by decide
+
 /-- `PosTs` is needed in the MODEL of the per-record rule (0 = "no record yet"): a record with timestamp 0 followed
 by a later one leaves a range that misses the first — which is why ingest must never store 0 -/
 example : ¬ (SM.ofEvents [⟨1, 0, []⟩, ⟨2, 5, []⟩]).covers ⟨1, 0, []⟩ := by
